@@ -256,7 +256,8 @@ def full_alias_cases(ctx, specs):
     Returns ordinary cases (expect unsat) for the ProgRunner."""
     from plib import R, hx
     lines = []
-    for (src, k, val, tags) in specs:
+    specs = [sp if len(sp) == 5 else tuple(sp) + (None,) for sp in specs]
+    for (src, k, val, tags, view) in specs:
         ops = src.split(";")
         # insert the host view right after the op that defines register k (registers are defined by `w` ops in order)
         seen, out = -1, []
@@ -265,12 +266,12 @@ def full_alias_cases(ctx, specs):
             if op.strip().startswith("w "):
                 seen += 1
                 if seen == k:
-                    out.append("hostview $%d %x" % (k, val + R))
+                    out.append("hostview $%d %x" % (k, (val + R) if view is None else view))
         lines.append("dump " + ";".join(out))
         lines.append("dump " + src)
     outs = ctx.impl(lines)
     cases = []
-    for i, (src, k, val, tags) in enumerate(specs):
+    for i, (src, k, val, tags, view) in enumerate(specs):
         a, h = outs[2 * i], outs[2 * i + 1]
         if not (a.startswith("G ") and h.startswith("G ")):
             continue
